@@ -203,6 +203,44 @@ theorem judgeC15_obs_datagram (ci ci' : ClientInfo) (p : Bytes) (reply : Option 
     simp only
     cases reply <;> rfl
 
+/-- `judgeC15` on the observation of a first TCP segment that the published stream reference does not identify
+    as STUN: not a STUN exchange -/
+theorem judgeC15_obs_tcp_other (ci ci' : ClientInfo) (p : Bytes) (reply : Option Bytes)
+    (htcp : ci.transport = some 6) (hs : refStream p ≠ some ID_STUN) :
+    judgeC15 (obsOf ci p ci' reply) = pass false := by
+  have ht : decide (ci.transport = some 6) = true := by simpa using htcp
+  simp only [judgeC15, obsOf, ht, Option.isNone_none, true_and]
+  rw [if_pos hs]
+
+/-- … and of a first TCP segment identified as STUN: judged like a datagram -/
+theorem judgeC15_obs_tcp (ci ci' : ClientInfo) (p : Bytes) (reply : Option Bytes)
+    (htcp : ci.transport = some 6) (hs : refStream p = some ID_STUN) :
+    judgeC15 (obsOf ci p ci' reply) =
+      match parseStun p with
+      | none => pass false
+      | some m =>
+        if m.cls = 0 ∧ m.method = 1 ∧ u8 p 0 = 0 ∧ u8 p 1 = 1 then
+          (match reply with
+           | some r =>
+             if !stunSuccessOk m r (ci.ipSrc.getD (.v4 [])) (ci.portSrc.getD 0) then
+               failShadow (obsOf ci p ci' reply) "STUN success response wrong (transaction id / length / MAPPED-ADDRESS)"
+             else if ci'.portDst.getD 0 ≠ (ci.portDst.getD 0 + changePortCount m) % 65536 then
+               failv "STUN change-port rule violated"
+             else pass true
+           | none => failShadow (obsOf ci p ci' reply) "STUN binding request not answered")
+        else
+          (match reply with
+           | some r => if classifyFor p r = .stun then failv "STUN response to a message of another class/method" else pass true
+           | none => pass true) := by
+  have ht : decide (ci.transport = some 6) = true := by simpa using htcp
+  simp only [judgeC15, refOf, obsOf, ht, Option.isNone_none, true_and, hs, ne_eq, not_true_eq_false, if_false,
+    if_true]
+  cases parseStun p with
+  | none => rfl
+  | some m =>
+    simp only
+    cases reply <;> rfl
+
 /-- every failure branch of `judgeC16` is a `failShadow` -/
 theorem judgeC16_ok_or_failShadow (o : AppObs) : (judgeC16 o).ok = true ∨ ∃ c, judgeC16 o = failShadow o c := by
   unfold judgeC16
